@@ -937,7 +937,11 @@ def sanitising_lib(base):
             a = args[0]
             A = _content(a, st) if isinstance(a, LocalArr) else a
             if A is None: return Opaque("isfinite of a partially defined array")
-            return lift1(lambda x: mk_fn("isfinite", [x]), A)
+
+            def fin_test(x):
+                c = Cond.get(("finite", x.keystr()), f"isfinite({x!r})"[:100]); c.finite_of = x
+                return PV(c, True, False)
+            return lift1(fin_test, A)
         return base(I, name, args, kw, st, n)
     return lib
 
@@ -950,17 +954,16 @@ def _strip_finite(x):
 
 
 def _proven_finite(path, leaf, jvar):
-    """the path contains `all(isfinite(E))` taken true for an array whose element is this leaf."""
+    """the path contains isfinite(E) taken true for this very element, or `all(isfinite(E'))` taken true for an array whose element is this leaf."""
     for cond, pol in path:
+        if not pol: continue
+        fo = getattr(cond, "finite_of", None)
+        if fo is not None and fo.eq(leaf): return True
         A = getattr(cond, "all_of", None)
-        if A is None or not pol or A.ndim != 1: continue
-        b = to_x(A.body) if not isinstance(A.body, PV) and not is_opaque(A.body) else None
-        if b is None: continue
-        want = mk_fn("isfinite", [leaf.subst({jvar: X.var(A.axes[0][0])})]) if leaf.isreal() else None
-        if want is not None and b.eq(want): return True
-        if want is None:
-            # complex: isfinite(z) as one predicate on the complex element
-            if b.eq(mk_fn("isfinite", [leaf.subst({jvar: X.var(A.axes[0][0])})])): return True
+        if A is None or A.ndim != 1: continue
+        b = A.body
+        if not (isinstance(b, PV) and b.hi is True and b.lo is False and getattr(b.cond, "finite_of", None) is not None): continue
+        if b.cond.finite_of.eq(leaf.subst({jvar: X.var(A.axes[0][0])})): return True
     return False
 
 
